@@ -597,6 +597,40 @@ pub mod kit {
         code
     }
 
+    /// `factory` / `factory_create` with the creating opcode replaced by `opcode` (used to build
+    /// the "CREATE is an undefined instruction" comparison programs of C12).
+    pub fn factory_with_opcode(init: &[u8], create2: bool, opcode: u8) -> Vec<u8> {
+        let mut code = if create2 { factory(init) } else { factory_create(init) };
+        let orig = if create2 { op::CREATE2 } else { op::CREATE };
+        // the creating opcode is the last occurrence before the trailing init code
+        let body_len = code.len() - init.len();
+        let pos = code[..body_len].iter().rposition(|&b| b == orig).expect("create opcode");
+        code[pos] = opcode;
+        code
+    }
+
+    /// Creates an empty contract endowed with calldata[0] wei from the executing account's balance;
+    /// stores created address + 1 in slot 7.
+    pub fn endower() -> Vec<u8> {
+        Asm::new()
+            .push(0)
+            .push(0)
+            .push(0)
+            .op(op::CALLDATALOAD)
+            .op(op::CREATE)
+            .push(1)
+            .op(op::ADD)
+            .push(7)
+            .op(op::SSTORE)
+            .op(op::STOP)
+            .build()
+    }
+
+    /// SELFDESTRUCT(calldata[0]): sends the executing account's whole balance away.
+    pub fn bomb() -> Vec<u8> {
+        Asm::new().push(0).op(op::CALLDATALOAD).op(op::SELFDESTRUCT).build()
+    }
+
     /// Same with CREATE (nonce-derived address).
     pub fn factory_create(init: &[u8]) -> Vec<u8> {
         let len = init.len() as u64;
